@@ -308,8 +308,8 @@ pub fn run(tier: Tier) -> Report {
     install_grids(&wd);
     let cat = catalogue();
     let (max_len, alpha) = match tier {
-        Tier::Quick => (4, 6),
-        Tier::Thorough => (5, 8),
+        Tier::Quick => (4, 7),
+        Tier::Thorough => (5, 9),
     };
     rep.set("max_sequence_length", json!(max_len));
     rep.set("tuple_alphabet_size", json!(alpha));
